@@ -221,3 +221,25 @@ impl Drop for ThreadPool {
         }
     }
 }
+
+/// Verification hooks (feature `verif`): read-only observation of the pool.
+#[cfg(feature = "verif")]
+impl ThreadPool {
+    /// Number of worker threads whose loop is still running.
+    pub(crate) fn verif_live_workers(&self) -> usize {
+        self.workers
+            .iter()
+            .filter(|w| w.thread.as_ref().is_some_and(|t| !t.is_finished()))
+            .count()
+    }
+
+    /// Number of jobs waiting in the queue.
+    pub(crate) fn verif_queue_len(&self) -> usize {
+        self.job_queue.len()
+    }
+
+    /// Number of workers the pool was created with.
+    pub(crate) fn verif_size(&self) -> usize {
+        self.workers.len()
+    }
+}
